@@ -350,6 +350,13 @@ func sortlistScenario(n int, nkeys int, mode string) {
 	items := make([]uint64, n)
 	skew := strings.HasSuffix(mode, "/skew")
 	mode = strings.TrimSuffix(mode, "/skew")
+	// "resorted/unsorted": NewUnsorted + Finish + Sort (load, compact);
+	// "resorted/desc": NewSorting(other order) + Finish + Sort (alter create of several indexes)
+	flavour := ""
+	if strings.HasPrefix(mode, "resorted/") {
+		flavour = strings.TrimPrefix(mode, "resorted/")
+		mode = "resorted"
+	}
 	for i := range items {
 		k := 1 + rnd.Intn(nkeys)
 		if skew && (i/4096)%2 == 0 {
@@ -359,7 +366,7 @@ func sortlistScenario(n int, nkeys int, mode string) {
 		items[i] = uint64(k)<<seqBits | uint64(i+1)
 		in[i] = int(items[i])
 	}
-	if n > 3 && rnd.Intn(3) == 0 { // already sorted input (merge short cut: "nothing to do")
+	if n > 3 && flavour == "" && rnd.Intn(3) == 0 { // already sorted input (merge short cut: "nothing to do")
 		sort.Slice(items, func(i, j int) bool { return items[i] < items[j] })
 		for i := range items {
 			in[i] = int(items[i])
@@ -374,7 +381,7 @@ func sortlistScenario(n int, nkeys int, mode string) {
 		case "sorted":
 			b = sortlist.NewSorting(zero, asc)
 		case "resorted":
-			if rnd.Intn(2) == 0 {
+			if flavour == "desc" || (flavour == "" && rnd.Intn(2) == 0) {
 				b = sortlist.NewSorting(zero, desc)
 			} else {
 				b = sortlist.NewUnsorted(zero)
@@ -405,6 +412,19 @@ func sortlistScenario(n int, nkeys int, mode string) {
 	})
 	tr.Emit(vh.E("SLBuild", "mode", mode, "in", in, "out", out, "ok", ok, "msg", msg))
 	stats["sortlist_items"] += n
+	if ok == 1 && mode == "resorted" {
+		// the re-sorted list is read through Builder.Iter (as load / index building do): a second
+		// pass must give the same list
+		again := make([]int, 0, n)
+		ok, msg = safely(func() {
+			it := b.Iter()
+			for x := it(); x != 0 && len(again) <= n; x = it() {
+				again = append(again, int(x))
+			}
+		})
+		tr.Emit(vh.E("SLAll", "rev", 0, "out", again, "ok", ok, "msg", msg))
+		stats["sortlist_resorts"]++
+	}
 	if ok == 0 || !haveList {
 		return
 	}
@@ -796,6 +816,20 @@ func main() {
 	}
 	sortlistScenario(4097+rnd.Intn(5000), 50, "sorted")
 	sortlistScenario(8192+rnd.Intn(200), 100, "sorted/skew")
+	// re-sort (Builder.Sort with another order after Finish) of lists whose last block is exactly
+	// full, and their neighbours
+	sortlistScenario(4096, 2000, "resorted/unsorted")
+	sortlistScenario(4096, 50, "resorted/desc")
+	sortlistScenario(8192, 2000, "resorted/desc")
+	sortlistScenario(8192, 50, "resorted/unsorted")
+	sortlistScenario(4095, 2000, []string{"resorted/unsorted", "resorted/desc"}[rnd.Intn(2)])
+	sortlistScenario(4097, 2000, []string{"resorted/unsorted", "resorted/desc"}[rnd.Intn(2)])
+	if !quick {
+		sortlistScenario(3*4096, 2000, "resorted/unsorted")
+		sortlistScenario(3*4096, 50, "resorted/desc")
+		sortlistScenario(8191, 50, "resorted/desc")
+		sortlistScenario(8193, 2000, "resorted/unsorted")
+	}
 	for i := 0; i < scale; i++ {
 		bloomScenario(20 + rnd.Intn(150))
 		roaringScenario([]int{4200, 5000, 100}[(i+int(vh.Seed()))%3])
